@@ -168,7 +168,8 @@ def check_template(template, repo, workdir, prop, exclude=None, rlimit=None, thr
     for u, d in mine.items():
         fn = d.get("qual") or d["fn"]
         ok, ms, rl = fr.get(fn, (None, 0, 0))
-        res["units"][u] = dict(fn=fn, clauses=d["clauses"], ok=ok, time_ms=ms, rlimit=rl, drops=d["drops"], desc=d["desc"])
+        res["units"][u] = dict(fn=fn, clauses=d["clauses"], ok=ok, time_ms=ms, rlimit=rl, drops=d["drops"], desc=d["desc"],
+                               search=d.get("search"))
         if ok is None:
             res["status"] = "undecided"
             res["undecided"].append("unit %s (%s) was not reported by verus" % (u, fn))
